@@ -222,7 +222,7 @@ Proof.
     destruct (match od with Some d => d <? s_total s | None => false end); [discriminate|].
     assert (Hm : forall p, s_spq p = s_spq s -> s_sps p = s_sps s -> is_quantized (merge cat p) = false).
     { intros p E1 E2. unfold is_quantized, merge, merge_z in *; cbn [s_spq s_sps]. rewrite E1, E2.
-      destruct (s_spq s =? 0), (s_sps s =? 0); lia. }
+      destruct (s_spq s =? 0) eqn:Z1, (s_sps s =? 0) eqn:Z2; cbn [negb]; lia. }
     destruct (0 <? cur) eqn:Hc.
     + unfold shift in H. destruct (cur <=? 0); [discriminate|]. rewrite Hqs in H.
       eapply IH; [exact Hps| |exact H]; apply Hm; reflexivity.
